@@ -5,6 +5,7 @@ package main
 // path is rooted at a parameter of an internal helper (requires) or at a captured variable.
 
 import (
+	"fmt"
 	"go/constant"
 	"go/token"
 	"go/types"
@@ -589,6 +590,9 @@ func (fe *FactEngine) resultEnsures(fn *ssa.Function) []relFact {
 		var here []relFact
 		for i := 0; i < errIndex(fn); i++ {
 			p := pathOf(ret.Results[i])
+			if n, ok := fe.lenOfValue(ret, ret.Results[i], 0); ok {
+				here = append(here, relFact{param: i, kind: kLenEq, min: n}, relFact{param: i, kind: kLenMin, min: n})
+			}
 			for _, b := range fn.Blocks {
 				for k := range b.Succs {
 					for _, f := range fe.factsOnEdgeDeep(fn, Edge{b, k}) {
@@ -676,4 +680,81 @@ func (fe *FactEngine) boolResultFacts(fn *ssa.Function, r *ssa.Return, truth boo
 		acc = keep
 	}
 	return acc
+}
+
+// ---------------------------------------------------------------------------------------------
+// lengths that follow from how a value was built (x[:33] has length 33, x[1:] of a 33-byte x has 32)
+
+// lenOfValue returns the exact length of v at instruction at, when it is determined by constant
+// slice bounds, by the length of the sliced base, or by a dominating equality test on v's path.
+func (fe *FactEngine) lenOfValue(at ssa.Instruction, v ssa.Value, depth int) (int64, bool) {
+	if depth > 6 || v == nil {
+		return 0, false
+	}
+	fn := at.Parent()
+	for {
+		ct, ok := v.(*ssa.ChangeType)
+		if !ok {
+			break
+		}
+		v = ct.X
+	}
+	if sl, ok := v.(*ssa.Slice); ok && sl.Max == nil {
+		var lo int64
+		loOK := true
+		if sl.Low != nil {
+			lo, loOK = intConst(sl.Low)
+		}
+		if loOK {
+			if sl.High != nil {
+				if hi, ok := intConst(sl.High); ok {
+					return hi - lo, hi >= lo
+				}
+				if p, off, ok := lenExpr(sl.High); ok && p == pathOf(sl.X) {
+					if n, ok := fe.lenOfValue(at, sl.X, depth+1); ok {
+						return n + off - lo, n+off-lo >= 0
+					}
+				}
+			} else {
+				if pt, ok := sl.X.Type().Underlying().(*types.Pointer); ok {
+					if arr, ok := pt.Elem().Underlying().(*types.Array); ok {
+						return arr.Len() - lo, arr.Len() >= lo
+					}
+				}
+				if n, ok := fe.lenOfValue(at, sl.X, depth+1); ok {
+					return n - lo, n >= lo
+				}
+			}
+		}
+	}
+	p := pathOf(v)
+	for _, b := range fn.Blocks {
+		for k := range b.Succs {
+			for _, f := range fe.factsOnEdgeDeep(fn, Edge{b, k}) {
+				if f.kind == kLenEq && f.path == p && fe.holdsAtBlock(fn, at.Block(), f) && storesToPath(fn, p) == 0 {
+					return f.min, true
+				}
+			}
+		}
+	}
+	return 0, false
+}
+
+// HoldsVal is Holds for a length fact about value v, which also uses lengths known by construction.
+func (fe *FactEngine) HoldsVal(at ssa.Instruction, v ssa.Value, kind factK, min int64) (bool, string) {
+	if n, ok := fe.lenOfValue(at, v, 0); ok {
+		switch kind {
+		case kLenMin:
+			if n >= min {
+				return true, ""
+			}
+			return false, fmt.Sprintf("length of %s is %d by construction, %d needed", pathOf(v), n, min)
+		case kLenEq:
+			if n == min {
+				return true, ""
+			}
+			return false, fmt.Sprintf("length of %s is %d by construction, %d needed", pathOf(v), n, min)
+		}
+	}
+	return fe.Holds(at, pfact{kind: kind, path: pathOf(v), min: min}, 0)
 }
